@@ -122,6 +122,20 @@ def iban_shard(args):
             for pc in bases.partners(country, body):
                 run_text(bases.iban_text(pc, body), f"partner {pc} first")
                 run_text(base, f"after partner {pc}")
+            # the very same object, re-read after its BBAN *object* was handed to from_bban of
+            # every partner country (objects must not be altered by later calls)
+            k0, obj = lib.outcome(lib.IBAN, base)
+            if k0 == "ok":
+                before = [getattr(obj, n) for n in COMPS] + [obj.bban.country_code, str(obj.bban)]
+                for pc in bases.partners(country):
+                    lib.outcome(lib.IBAN.from_bban, pc, obj.bban)
+                    lib.outcome(lib.IBAN.from_bban, pc, obj.bban, allow_invalid=True)
+                    part["evals"] += 2
+                after = [getattr(obj, n) for n in COMPS] + [obj.bban.country_code, str(obj.bban)]
+                if after != before:
+                    part.violation("object-altered-by-from_bban-of-another-country",
+                                   {"kind": "c11", "type": "iban", "text": base, "how": "same object re-read "
+                                    "after IBAN.from_bban(partner, obj.bban)"}, before, after)
         if f in ("distinct", "max"):
             for fam, text in families.iban_lengths(base):
                 run_text(text, fam)
